@@ -131,7 +131,7 @@ impl RefAny for RevRef {
 	}
 	fn key(&self) -> String {
 		let w = self.r.left + self.r.right + 1;
-		let cap = PeriodType::MAX as u64 + 2;
+		let cap = (PeriodType::MAX as u64).saturating_add(2);
 		format!("{:?}|{}", self.r.input.last_n(w).iter().map(|q| q.v.to_bits()).collect::<Vec<_>>(), self.t.min(cap))
 	}
 }
